@@ -84,6 +84,13 @@ type Chain struct {
 	viewAckSt [][3]string
 	viewBal   []string
 
+	// ghost: for every client name, the consensus-state heights the PRESENT client instance accepted itself (creation,
+	// its updates and upgrades; reset by a toggle).  The `low` recomputation of the verify table requires the proof
+	// height to be one of them — whatever the client store contains.
+	accepted  map[string]map[[2]uint64]bool
+	preToggle map[string]clienttypes.Height // latest height of a client right before it was last toggled / upgraded
+	savedTM   map[string]exported.ClientState
+
 	sentFrom [][2]string // (dst name, seq) of every packet sent so far from this chain
 	sentSeen map[[2]string]bool
 }
@@ -119,6 +126,8 @@ type Env struct {
 	stats   map[string]int
 
 	tSetup time.Duration
+
+	wack *[2]string // (code, fee option) of the acknowledgement written by the receive that is being recorded
 }
 
 func (e *Env) stat(k string) { e.stats[k]++ }
@@ -360,7 +369,7 @@ func scanNeeds(s *Spec) needs {
 				n.base = true
 			case "notrace":
 				n.notrace = true
-			case "agent":
+			case "agent", "agent_unknown":
 				n.agent = true
 				n.erc20 = true
 			default:
@@ -394,7 +403,8 @@ func newEnv(spec *Spec) *Env {
 	e.coord = xibctesting.NewCoordinator(t, nChains)
 	for i := 0; i < nChains; i++ {
 		tc := e.coord.GetChain(xibctesting.GetChainID(i))
-		e.chains = append(e.chains, &Chain{idx: i, tc: tc, name: tc.ChainID, sentSeen: map[[2]string]bool{}})
+		e.chains = append(e.chains, &Chain{idx: i, tc: tc, name: tc.ChainID, sentSeen: map[[2]string]bool{},
+			accepted: map[string]map[[2]uint64]bool{}, preToggle: map[string]clienttypes.Height{}, savedTM: map[string]exported.ClientState{}})
 	}
 	// Tendermint clients on every pair (also registers SenderAcc as relayer, overwritten below)
 	for i := 0; i < nChains; i++ {
@@ -532,6 +542,11 @@ func newEnv(spec *Spec) *Env {
 	}
 	for _, c := range e.chains {
 		c.fullHash, _, _ = c.hashes(c.ctx())
+		// every consensus state present now was accepted by the client instance that exists now
+		c.tc.App.XIBCKeeper.ClientKeeper.IterateConsensusStates(c.ctx(), func(n string, cs clienttypes.ConsensusStateWithHeight) bool {
+			c.accept(n, cs.Height)
+			return false
+		})
 	}
 	e.tSetup = time.Since(t0)
 	return e
@@ -624,6 +639,17 @@ func (c *Chain) hashes(ctx sdk.Context) (full [32]byte, evmbank [32]byte, n int)
 	return
 }
 
+func (c *Chain) accept(name string, h clienttypes.Height) {
+	if c.accepted[name] == nil {
+		c.accepted[name] = map[[2]uint64]bool{}
+	}
+	c.accepted[name][[2]uint64{h.RevisionNumber, h.RevisionHeight}] = true
+}
+
+func (c *Chain) isAccepted(name string, h clienttypes.Height) bool {
+	return c.accepted[name][[2]uint64{h.RevisionNumber, h.RevisionHeight}]
+}
+
 // ---------------------------------------------------------------------------------------------
 // chain description
 
@@ -632,7 +658,11 @@ func (e *Env) describe(c *Chain) ChainJ {
 	ck := c.tc.App.XIBCKeeper.ClientKeeper
 	j := ChainJ{Name: hs(c.name), Clients: []ClientJ{}, Relayers: []RelayerJ{}}
 	ck.IterateClients(ctx, func(name string, cs exported.ClientState) bool {
-		j.Clients = append(j.Clients, ClientJ{Name: hs(name), Tss: cs.ClientType() == exported.TSS})
+		cj := ClientJ{Name: hs(name), Tss: cs.ClientType() == exported.TSS, Cons: [][2]string{}}
+		for _, h := range c.consensusHeights(name) {
+			cj.Cons = append(cj.Cons, heightJ(h))
+		}
+		j.Clients = append(j.Clients, cj)
 		return false
 	})
 	for _, ir := range ck.GetAllRelayers(ctx) {
